@@ -119,7 +119,7 @@ def run(ctx):
             extra.append((substitute(s, w), w))
         except Exception:
             pass
-    extra += operator_built(ctx)
+    extra_ops = operator_built(ctx)
     # every schema a declaration chain can build is declarable too — satisfiable or not, in any declaration order
     from .. import gen_chain as GC
     from .C11 import UNIVERSE
@@ -152,7 +152,12 @@ def run(ctx):
     ctx.count("schemas_from_declaration_chains", len(chained))
     reqs, info = [], []
     from d42.declaration.types import GenericTypeAliasSchema
-    for s, w in pairs + extra + chained:
+    # NOTE: results of `%` are NOT "built through the declaration DSL" (C06's scope): e.g. schema.any(schema.int, schema.any) % 0
+    # is any(int(0), any(int(0))) — built without the flattening every declaration performs — and prints text that evaluates
+    # to the flattened union. They take part in the text correspondence (model vs code) only.
+    n_declared = len(pairs) + len(extra_ops)
+    for idx, (s, w) in enumerate(pairs + extra_ops + chained + extra):
+        from_subst = idx >= n_declared + len(chained)
         if any(isinstance(x, GenericTypeAliasSchema) for x in rebuild.subschemas(s)):
             ctx.count("skipped_alias")       # the property is about schemas without type aliases or custom types
             continue
@@ -170,16 +175,19 @@ def run(ctx):
         info_d = dict(schema_text=text, py_schema=s)
         if text != represent(s) or text != repr(rebuild.clone(s)):
             ctx.violation("repr is not deterministic (repr / represent / repr of an independent rebuild differ)", **info_d)
-        try:
-            back = eval(text, dict(ENV))
-        except Exception as e:  # noqa: BLE001
-            ctx.violation("the printed text does not evaluate (%s: %s)" % (type(e).__name__, e), **info_d)
-            continue
-        if not (back == s) or not (s == back):
-            ctx.violation("evaluating the printed text yields a schema that is not equal to the original",
-                          rebuilt_props=repr(back.props), original_props=repr(s.props), **info_d)
-        elif repr(back) != text:
-            ctx.violation("the rebuilt schema prints differently", rebuilt_text=repr(back), **info_d)
+        if not from_subst:
+            try:
+                back = eval(text, dict(ENV))
+            except Exception as e:  # noqa: BLE001
+                ctx.violation("the printed text does not evaluate (%s: %s)" % (type(e).__name__, e), **info_d)
+                continue
+            if not (back == s) or not (s == back):
+                ctx.violation("evaluating the printed text yields a schema that is not equal to the original",
+                              rebuilt_props=repr(back.props), original_props=repr(s.props), **info_d)
+            elif repr(back) != text:
+                ctx.violation("the rebuilt schema prints differently", rebuilt_text=repr(back), **info_d)
+        else:
+            ctx.count("substitution_results_text_only")
         I = encode.Interner()
         try:
             es = encode.enc_schema(s, I)
